@@ -606,6 +606,9 @@ def check_total_candidates(prog: Program, res: Result) -> None:
                 v = binds[0].value if len(binds) == 1 and isinstance(binds[0], ast.Assign) else None
             if isinstance(v, ast.Call) and norm(v.func).split(".")[-1] == "defaultdict" and v.args and norm(v.args[0]) == "list":
                 continue
+            if isinstance(v, ast.DictComp) and len(v.generators) == 1 and not v.generators[0].ifs and "current_tracks" in norm(v.generators[0].iter) \
+                    and norm(v.key) == norm(v.generators[0].target):
+                continue  # {track_id: ... for track_id in current_tracks}: a key for every current track
             if isinstance(v, ast.Call) and depth < 3:
                 q = prog.resolve_call(fi, v)
                 callee = prog.functions.get(q) if q else None
@@ -691,4 +694,9 @@ VARIANTS = [
     Variant("bp-list-wrap-name", LQF, "                    self.add_new_tracks([current_instances[ind]])", "                    newcomer = [current_instances[ind]]\n                    self.add_new_tracks(newcomer)", None),
     Variant("bp-alloc-reorder", LQF, "                t.track_id = new_track_id\n                t.tracking_score = 1.0\n                self.current_tracks.append(new_track_id)",
             "                self.current_tracks.append(new_track_id)\n                t.track_id = new_track_id\n                t.tracking_score = 1.0", None),
+    Variant("bp-total-dict-comprehension", TRF, "        candidates_feature_dict = defaultdict(list)\n        for track_id in self.candidate.current_tracks:\n            candidates_feature_dict[track_id].extend(\n                self.candidate.get_features_from_track_id(track_id, candidates_list)\n            )\n        return candidates_feature_dict",
+            "        candidates_feature_dict = {\n            track_id: list(self.candidate.get_features_from_track_id(track_id, candidates_list))\n            for track_id in self.candidate.current_tracks\n        }\n        return candidates_feature_dict", None),
+    Variant("total-plain-dict", TRF, "        candidates_feature_dict = defaultdict(list)\n        for track_id in self.candidate.current_tracks:", "        candidates_feature_dict = {}\n        for track_id in self.candidate.current_tracks[:1]:", "C09-total"),
+    Variant("bp-features-comprehension", TRF, "        feature_list = []\n        for pred_instance in untracked_instances:\n            feature_list.append(feature_method(pred_instance))\n", "        feature_list = [feature_method(pred_instance) for pred_instance in untracked_instances]\n", None),
+    Variant("features-filtered", TRF, "        feature_list = []\n        for pred_instance in untracked_instances:\n            feature_list.append(feature_method(pred_instance))\n", "        feature_list = [feature_method(p) for p in untracked_instances if p.score > 0]\n", "C09-align"),
 ]
